@@ -9,10 +9,13 @@ WT=$(mktemp -d /tmp/mutrepo.XXXXXX)
 git -C /repo worktree add --detach "$WT" HEAD -q || exit 2
 trap 'git -C /repo worktree remove --force "$WT" >/dev/null 2>&1; rm -rf "$WT"' EXIT
 cd "$WT"
-echo "== demo on clean tree"; PYTHONPATH="$WT/src:$WT" MPLBACKEND=Agg timeout 900 /venv/bin/python -W ignore "$M/demo.py" >/dev/null 2>&1; echo "demo(clean) rc=$?"
+# demonstrations locate the repository relative to their own path (<worktree>/mutants/<m>/demo.py)
+mkdir -p "$WT/mutants/m" && cp "$M"/demo.py "$WT/mutants/m/demo.py"
+DEMO="$WT/mutants/m/demo.py"
+echo "== demo on clean tree"; PYTHONPATH="$WT/src:$WT" MPLBACKEND=Agg timeout 1800 /venv/bin/python -W ignore "$DEMO" >/dev/null 2>&1; echo "demo(clean) rc=$?"
 git apply "$M/patch.diff" || { echo "PATCH DOES NOT APPLY"; exit 2; }
 echo "== baseline tests with the change"; PYTHONPATH="$WT/src:$WT" /venv/bin/python -m pytest -q -p no:cacheprovider --timeout=900 2>&1 | tail -1
-echo "== demo with the change"; PYTHONPATH="$WT/src:$WT" MPLBACKEND=Agg timeout 900 /venv/bin/python -W ignore "$M/demo.py" 2>&1 | tail -3; echo "demo(mutant) rc=${PIPESTATUS[0]}"
+echo "== demo with the change"; PYTHONPATH="$WT/src:$WT" MPLBACKEND=Agg timeout 1800 /venv/bin/python -W ignore "$DEMO" 2>&1 | tail -3; echo "demo(mutant) rc=${PIPESTATUS[0]}"
 cd /verif
 for id in "$@"; do
   echo "== check $id against the change"
